@@ -371,6 +371,18 @@ Elim(A, B, n) ==
                   IN Rows(i + 1, [A1 EXCEPT ![i] = row], [B1 EXCEPT ![i] = b2])
            r == Rows(1, A, B)
        IN Elim(r.A, r.B, n - 1)
+(* one elimination step (state n) as a function, for models that run the loop one action per state *)
+ElimOne(A, B, n) ==
+  LET RECURSIVE Rows(_, _, _)
+      Rows(i, A1, B1) ==
+        IF i >= n THEN [A |-> A1, B |-> B1]
+        ELSE IF XIsNone(A1[i][n]) THEN Rows(i + 1, A1, B1)
+        ELSE LET b2 == XUnion(B1[i], Concatenate(A1[i][n], B1[n]))
+                 row == [j \in DOMAIN A1[i] |->
+                           IF j < n THEN XUnion(A1[i][j], Concatenate(A1[i][n], A1[n][j])) ELSE A1[i][j]]
+             IN Rows(i + 1, [A1 EXCEPT ![i] = row], [B1 EXCEPT ![i] = b2])
+  IN Rows(1, A, B)
+
 (* g = [n, es, fin], init = initial state; the trie is acyclic, so no self loops arise *)
 ToExpr(g, init) ==
   LET ord == DfsOrder(g, init)
@@ -385,6 +397,7 @@ XToLang(e) ==
     [] e.t = "cat2" -> [t |-> "cat", xs |-> <<XToLang(e.a), XToLang(e.b)>>]
     [] e.t = "altn" -> [t |-> "alt", xs |-> [i \in DOMAIN e.xs |-> XToLang(e.xs[i])]]
     [] e.t = "opt"  -> [t |-> "rep", x |-> XToLang(e.x), lo |-> 0, hi |-> 1, g |-> TRUE]
+XLang(e) == IF XIsNone(e) THEN {} ELSE LangOf(XToLang(e))
 
 (***************************************************************************)
 (* S11  src/format.rs / grapheme.rs: printing.  The bounded models use the *)
